@@ -65,16 +65,18 @@ def main():
                 rcb, ob = sh(f"{ROOT}/tools/baseline.py {REPO}")
                 res["baseline_green"] = rcb == 0
             t0 = time.time()
-            rc, out = sh(f"./check {prop} --tier {tier}", cwd=ROOT, env=dict(os.environ, VERIF_SEED=os.environ.get("VERIF_SEED", "0"),
-                                  VERIF_EVIDENCE_DIR="/tmp/seedtest_evidence", VERIF_REPLAY_DIR=os.path.join(d, "replays")))
-            res["check_rc"] = rc
+            res["caught"], res["with_failing_input"], res["violation_lines"], res["finding_keys"], res["check_rc"] = False, False, [], [], {}
+            for cp in meta.get("check_with", [prop]):
+                rc, out = sh(f"./check {cp} --tier {tier}", cwd=ROOT,
+                             env=dict(os.environ, VERIF_SEED=os.environ.get("VERIF_SEED", "0"),
+                                      VERIF_EVIDENCE_DIR="/tmp/seedtest_evidence", VERIF_REPLAY_DIR=os.path.join(d, "replays")))
+                res["check_rc"][cp] = rc
+                vl = [line for line in out.splitlines() if line.startswith("VIOLATION")]
+                res["violation_lines"] += vl[:3]
+                res["finding_keys"] += [line.strip() for line in out.splitlines() if line.startswith("  " + cp + "/")][:3]
+                res["caught"] = res["caught"] or (rc == 1 and bool(vl))
+                res["with_failing_input"] = res["with_failing_input"] or any("no-failing-input-found" not in v for v in vl)
             res["check_wall_s"] = round(time.time() - t0, 1)
-            vl = [line for line in out.splitlines() if line.startswith("VIOLATION")]
-            res["violation_lines"] = vl[:3]
-            keys = [line.strip() for line in out.splitlines() if line.startswith("  " + prop + "/")]
-            res["finding_keys"] = keys[:3]
-            res["caught"] = rc == 1 and bool(vl)
-            res["with_failing_input"] = any("no-failing-input-found" not in v for v in vl)
         finally:
             sh("git checkout -- .", cwd=REPO)
         results[name] = res
